@@ -846,8 +846,13 @@ def body_rescale(case, ctx):
               "units-scaled-differently" if diff else "",
               "special=" + case["special"] if case.get("special") else "")
 
+    handed = gen.Handed()
+
     def mk(PA, PB):
-        return hyperbolic.Point(PA.copy()), hyperbolic.Point(PB.copy())
+        # (the caller's own arrays, which it overwrites once the points are built)
+        pts = hyperbolic.Point(handed.give(PA)), hyperbolic.Point(handed.give(PB))
+        handed.scribble()
+        return pts
     A0, B0 = mk(PA0, PB0)
     A1, B1 = mk(PA1, PB1)
     rad = max(float(np.max(np.sum(KA ** 2, axis=-1), initial=0)),
@@ -883,6 +888,14 @@ def body_rescale(case, ctx):
               _unordered_pair_dist(I1, I0) / segtol, 1.0)
     ctx.small("ideal endpoints are lightlike",
               mink(I1, I1) / np.sum(I1 * I1, axis=-1) / (segtol[..., None] * 10), 1.0)
+    # and in the same order (the ideal endpoint on the side of the first endpoint first),
+    # unit by unit, whatever the signs of the factors
+    ordered = np.maximum(proj_dist(I1[..., 0, :], I0[..., 0, :]),
+                         proj_dist(I1[..., 1, :], I0[..., 1, :]))
+    ctx.small("segment ideal endpoints keep their order under rescaling", ordered / segtol, 1.0)
+    toward = np.sum((I0[..., 0, 1:] / I0[..., 0, :1] - KA) * (KA - KB), axis=-1)
+    ctx.check(np.all(toward > 0), "the first ideal endpoint lies beyond the first endpoint",
+              toward=toward)
     if n == 2:
         for model in ("poincare", "halfspace"):
             c0, r0, th0 = S0.circle_parameters(degrees=False, model=model)
